@@ -72,7 +72,7 @@ def main():
         demo = os.path.join(base, "demo.py")
         text = open(os.path.join(srcdir, "demo.py")).read()
         # demos were written against the author's own worktree path; point them at the scratch one
-        text = re.sub(r"/tmp/wt/C\d\d", wt, text)
+        text = re.sub(r"/tmp/wt\d*/C\d\d", wt, text)
         open(demo, "w").write(text)
         rc0, out0 = sh([PY, demo], cwd=base, env=env, timeout=900)
         ran["demo_on_unchanged_tree"] = dict(exit=rc0, tail=out0[-300:])
